@@ -1,0 +1,26 @@
+//go:build verif
+
+// Contracts for package appctlcommon (comment-only; read by /verif/govc).
+
+package appctlcommon
+
+//@ func HashUserPassword(user *pb.User, keepPlaintext bool) (r *pb.User)
+//@   property C20
+//@   mode int
+//@   modifies user.HashedPassword, user.Password
+//@   ensures r == user
+//@   ensures user != nil && !keepPlaintext ==> pbs(user.Password) == ""
+//@   ensures user != nil && old(pbs(user.Password)) != "" ==> user.HashedPassword != nil && *user.HashedPassword == hexS(hashedPasswordS(old(pbs(user.Password)), old(pbs(user.Name))))
+//@   ensures user != nil && old(pbs(user.Password)) == "" ==> user.HashedPassword == old(user.HashedPassword) && user.Password == old(user.Password)
+//@   ensures user != nil && keepPlaintext ==> pbs(user.Password) == old(pbs(user.Password))
+//@
+//@ func HashUserPasswords(users []*pb.User, keepPlaintext bool) (r []*pb.User)
+//@   property C20
+//@   mode int
+//@   noframe
+//@   ensures len(r) == len(users)
+//@   ensures !keepPlaintext ==> forall(k, 0, len(users), users[k] != nil ==> pbs(users[k].Password) == "")
+//@   loop 1:
+//@     invariant 0 <= i && i <= len(users)
+//@     invariant len(users) == old(len(users)) && users == old(users)
+//@     invariant !keepPlaintext ==> forall(k, 0, i, users[k] != nil ==> pbs(users[k].Password) == "")
